@@ -4,7 +4,7 @@ use std::sync::Arc;
 
 use super::*;
 use crate::array::DataChunk;
-use crate::catalog::{ColumnRefId, TableRefId};
+use crate::catalog::{ColumnRefId, TableRefId, find_sort_key_id};
 use crate::storage::{
     KeyRange, ScanOptions, Storage, StorageColumnRef, Table, Transaction, TxnIterator,
 };
@@ -36,12 +36,22 @@ impl<S: Storage> TableScanExecutor<S> {
             col_idx.push(StorageColumnRef::RowHandler);
         }
 
+        // The optimizer assumes that a scan of the secondary storage is ordered by primary key
+        // (`useless-order`, `merge-join`, `sort-agg`). Each RowSet is sorted, but the scan is
+        // only ordered if the RowSets are merged instead of concatenated.
+        let sort_keys = find_sort_key_id(&table.columns()?);
+        let sorted = self.storage.as_disk().is_some()
+            && !sort_keys.is_empty()
+            && (sort_keys.iter()).all(|id| col_idx.contains(&StorageColumnRef::Idx(*id as u32)));
+
         let txn = table.read().await?;
 
         let mut it = txn
             .scan(
                 &col_idx,
-                ScanOptions::default().with_filter_opt(self.filter),
+                ScanOptions::default()
+                    .with_filter_opt(self.filter)
+                    .with_sorted(sorted),
             )
             .await?;
 
